@@ -24,6 +24,7 @@ pub const WALK_GLOBS: &[&str] = &[
     "**/a.b", "**/*.b", ".*", ".*/**", "**/[a-c]", "**/[!a-c]*", "$", "$a", "**/$.txt", "{a,b/**}", "{a/**,b/**}",
     "x/{a,b/**}", "**/{.git,target}/**", "**/{lib,main}.rs", "<*/:0,1>*", "<*/:1,>a", "a/<*/>", "*/**", "**/*/**",
     "a/**/*", "**/b/**/*", "[a]/**", "a/?", "a/??", "{a,b}{a,b}", "**/<a:1,2>", "**/{a}", "**/{a,bc}",
+    "{A,a}/**", "{a,A}/*", "{SRC,src}/**/*.rs", "{B,b}", "{Ab,ab,AB}/**", "{DOC,doc}/*", "{b,B}/**", "{FOO,foo}/**",
 ];
 
 pub const NEGATIONS: &[&str] = &[
@@ -56,7 +57,31 @@ pub fn walk_glob(rng: &mut Rng, spec: &TreeSpec) -> String {
                 let mut out: Vec<String> = Vec::new();
                 for c in comps {
                     let e = wax::escape(c).to_string();
-                    let piece = match rng.below(8) {
+                    let piece = match rng.below(9) {
+                        8 => {
+                            // Alternation of case variants of a literal name, the spelling that
+                            // exists on disk second: both branches are invariant text.
+                            let swapped: String = c
+                                .chars()
+                                .map(|ch| {
+                                    if ch.is_lowercase() && ch.to_uppercase().count() == 1 {
+                                        ch.to_uppercase().next().unwrap()
+                                    }
+                                    else if ch.is_uppercase() && ch.to_lowercase().count() == 1 {
+                                        ch.to_lowercase().next().unwrap()
+                                    }
+                                    else {
+                                        ch
+                                    }
+                                })
+                                .collect();
+                            if swapped == c {
+                                e.clone()
+                            }
+                            else {
+                                format!("{{{},{}}}", wax::escape(&swapped), e)
+                            }
+                        },
                         0 => "*".to_string(),
                         1 => "**".to_string(),
                         2 => "?*".to_string(),
